@@ -11,6 +11,7 @@ import (
 	"path"
 	"path/filepath"
 	"strconv"
+	"strings"
 	"sync"
 	"time"
 
@@ -716,6 +717,11 @@ func (f *STFS) Rename(oldname, newname string) error {
 
 	oldname = cleanName(oldname)
 	newname = cleanName(newname)
+
+	// A directory can't be moved into its own subtree
+	if strings.HasPrefix(newname, strings.TrimSuffix(oldname, "/")+"/") {
+		return os.ErrInvalid
+	}
 
 	f.ioLock.Lock()
 	defer f.ioLock.Unlock()
